@@ -1,7 +1,9 @@
 //! Dispatch from property ids to engines.
+pub mod asmcheck;
 pub mod codegen;
 pub mod e2e;
 pub mod heapbfs;
+pub mod runtime;
 pub mod selftest;
 pub mod stages;
 pub mod subst;
@@ -29,6 +31,8 @@ pub fn run_worker(check: &str, ctx: &WorkerCtx, _extra: &[String]) -> Report {
         "C09" => heap_worker(ctx, false),
         "C10" => heap_worker(ctx, true),
         "C11" => subst::worker(ctx),
+        "C14" => asmcheck::worker(ctx),
+        "C20" => runtime::worker(ctx),
         "C13" => {
             let mut r = codegen::worker(ctx, Arch::X86, codegen::Mode::CallConv);
             r.merge(codegen::worker(ctx, Arch::A64, codegen::Mode::CallConv));
@@ -256,6 +260,26 @@ pub fn run_check(id: &str, tier: Tier) -> i32 {
             };
             finish(&meta, tier, started, rep, Map::new())
         }
+        "C14" => {
+            let rep = run_sharded(id, tier, &[]);
+            let meta = CheckMeta {
+                property: "C14",
+                level: "exploration",
+                rule: "every assembly file emitted for the linear AxCut families (three backends) and for the Fun families (three backends; literals of every magnitude in every placement, types with 1..8 xtors, generated-name lookalikes) is linted: each label defined once, every referenced label defined, no label equal to a runtime symbol, every immediate/shift/offset within the field of the printed instruction form (x86-64 imm32/disp32 except mov r64,imm64; AArch64 imm12, imm16+shift, scaled offsets, imm7 pairs, ADR/branch ranges; RV64 imm12), jump-table entries of the fixed size the tag arithmetic assumes. x86-64 files are additionally assembled by GNU as and every jump table is read back from the object code with objdump (E9 rel32 entries, stride = jump_length(1)). Symbol-injection closure: for every generated definition symbol in an emitted file a variant program with a user definition of exactly that spelling is compiled and linted. Distinct = distinct emitted files.".into(),
+                assumptions: vec!["GNU as after a syntax-only transliteration stands in for yasm; range tables written from the ISA manuals".into()],
+            };
+            finish(&meta, tier, started, rep, Map::new())
+        }
+        "C20" => {
+            let rep = run_sharded(id, tier, &[]);
+            let meta = CheckMeta {
+                property: "C20",
+                level: "exploration",
+                rule: "io.c is compiled unmodified into a C harness: print_i64 and println_i64 are called on every value of a boundary set (all of [-300,300] quick / [-10^4,10^4] thorough; +-10^k, +-(10^k+-1) for k<=18; +-2^k, +-(2^k+-1) for k<=63; MIN, MAX) and the bytes written must equal the decimal text (plus newline), nothing else; echo programs of arity 0..5 are compiled by the real pipeline and run natively on every argument tuple over a value set containing values beyond 32 bits and both extremes (3 values quick / 6 values thorough per parameter), every wrong argument count 0..7 must be reported without running, the exit status must be the low 8 bits of the result; AArch64 arities 0..7 run on the emulator. Distinct = distinct (kind, value/tuple).".into(),
+                assumptions: vec!["gcc/glibc of the sandbox; GNU as stands in for yasm; AArch64 entry checked on the emulator only".into()],
+            };
+            finish(&meta, tier, started, rep, Map::new())
+        }
         "C13" => {
             let rep = run_sharded(id, tier, &[]);
             let meta = CheckMeta {
@@ -316,6 +340,21 @@ pub fn replay(id: &str, path: &str) -> i32 {
                 2
             }
         },
+        Some("asm-fun") => match asmcheck::replay(case) {
+            Ok(Some(msg)) => {
+                println!("[{id}] replay: {msg}");
+                println!("VIOLATION property={id} replay={path}");
+                1
+            }
+            Ok(None) => {
+                println!("[{id}] replay: no violation");
+                0
+            }
+            Err(e) => {
+                eprintln!("replay failed: {e}");
+                2
+            }
+        },
         Some("funstage") | Some("axnl") => match stages::replay(case) {
             Ok(Some(msg)) => {
                 println!("[{id}] replay: {msg}");
@@ -361,7 +400,25 @@ pub fn replay(id: &str, path: &str) -> i32 {
                 2
             }
         },
-        _ => {
+        Some(_) => {
+            // generic replay: re-run the property's enumeration in this process (single shard) at
+            // the recorded tier and look for the recorded case
+            let tier = v["tier"].as_str().and_then(Tier::parse).unwrap_or(Tier::Quick);
+            let ctx = WorkerCtx { tier, shard: 0, nshards: 1, seed: seed(), started: Instant::now(), budget_s: 3000.0 };
+            let rep = run_worker(id, &ctx, &[]);
+            match rep.violations.iter().find(|x| x.case == *case) {
+                Some(x) => {
+                    println!("[{id}] replay: {}: {}", x.sig, x.msg);
+                    println!("VIOLATION property={id} replay={path}");
+                    1
+                }
+                None => {
+                    println!("[{id}] replay: the recorded case no longer violates the property");
+                    0
+                }
+            }
+        }
+        None => {
             eprintln!("unknown replay kind");
             2
         }
